@@ -10,7 +10,8 @@ TECHNIQUE = "Hypothesis-generated (region, magnitude grid, catalog) triples vs. 
 RULE = ("one case = region (Cartesian lattice with holes/mask flags/permuted cells, or quadtree: single resolution zoom 1..4 or a prefix-free "
         "partial quadkey set) x magnitude grid (decimal start/step, 1..8 bins; bound to the region or passed explicitly) x catalog (0..40 "
         "events placed by construction: cell lower-left corners, cell edges, interiors; magnitudes on bin edges, interiors, far above the last "
-        "edge; duplicates; any order). Family 'in_domain': all events inside; family 'mixed': 1..3 events outside the region or below the first "
+        "edge; duplicates; any order; 1 case in 16 repeats its event list 30x/100x; 1 in 3 passes a caller-supplied tol with events 0.3 tol "
+        "below edges). Family 'in_domain': all events inside; family 'mixed': 1..3 events outside the region or below the first "
         "magnitude edge inserted at drawn positions. Non-trivial = >= 2 events in one cell-bin and >= 1 event on an edge (in_domain) / the bad "
         "event is not last (mixed); distinct = canonical JSON.")
 ASSUMPTIONS = ["events of the in-domain family are constructed at offsets {0,1/4,1/2,3/4} of a cell (never within slack below an upper edge), so the reference gridding is unambiguous",
@@ -95,7 +96,7 @@ def check_case(ctx, case):
     if not bound and not other:
         # region without its own magnitudes: mag_bins must be passed explicitly
         region.magnitudes = None
-    ev = case["events"]
+    ev = case["events"] * case.get("repeat", 1)      # "repeat": the same events many times over (large catalogs)
     n = len(ev)
     cells = [M.cell_of(e[0], e[1]) for e in ev]
     bins = [mag_bin(edges, e[2]) for e in ev]
@@ -352,6 +353,8 @@ def cases(draw, max_events=40):
     if mc["n"] >= 2 and draw(st.integers(0, 2)) == 0:
         case["tol"] = draw(st.sampled_from([1e-8, 1e-6, 1e-4]))
         case["tol_edges"] = draw(st.lists(st.integers(1, mc["n"] - 1), min_size=1, max_size=3))
+    if draw(st.integers(0, 15)) == 0:
+        case["repeat"] = draw(st.sampled_from([30, 100]))
     if draw(st.booleans()):
         case["family"] = "mixed"
         pos = []
